@@ -45,6 +45,8 @@ pub struct Sr {
     pub max_iter: u64,
     pub beyond_limit: u64,
     pub budget_hit: bool,
+    /// the wall-clock cap of the wrapper ended the run (also sets `budget_hit`)
+    pub wall_hit: bool,
     pub flag_after: bool,
     pub max_real_depth: u64,
     pub max_state_len: u64,
@@ -67,6 +69,49 @@ impl Sr {
 /// Run the driver once. `stop_at` = poll index at which the hook flips the flag (0 = never),
 /// `budget` = total polls after which the hook ends the run (0 = none), `watch` = count and end
 /// at the first node expanded in an iteration deeper than `limit`.
+// Wall-clock cap on one in-process search. The poll budget counts node entries, but a node's
+// capture extension can take very long in tactical middlegames (one depth-4 search of a
+// kiwipete descendant was measured at 92 s), so a per-process watchdog thread lowers the running
+// flag when a search outlives the cap; the run is then treated like a budget hit (not judged as
+// "ended by itself"). The cap is generous: ordinary searches of these workloads take milliseconds.
+static SEARCH_FLAG: AtomicBool = AtomicBool::new(true);
+static WALL_DEADLINE_MS: std::sync::atomic::AtomicU64 = std::sync::atomic::AtomicU64::new(0);
+static WALL_HIT: AtomicBool = AtomicBool::new(false);
+static WATCHDOG: std::sync::Once = std::sync::Once::new();
+
+fn now_ms() -> u64 {
+    static T0: std::sync::OnceLock<std::time::Instant> = std::sync::OnceLock::new();
+    T0.get_or_init(std::time::Instant::now).elapsed().as_millis() as u64 + 1
+}
+
+fn wall_cap_ms() -> u64 {
+    static CAP: std::sync::OnceLock<u64> = std::sync::OnceLock::new();
+    *CAP.get_or_init(|| std::env::var("VH_SEARCH_WALL_MS").ok().and_then(|v| v.parse().ok()).unwrap_or(20_000))
+}
+
+fn arm_watchdog() {
+    WATCHDOG.call_once(|| {
+        std::thread::spawn(|| loop {
+            std::thread::sleep(Duration::from_millis(50));
+            let d = WALL_DEADLINE_MS.load(SeqCst);
+            if d != 0 && now_ms() > d {
+                WALL_HIT.store(true, SeqCst);
+                SEARCH_FLAG.store(false, SeqCst);
+            }
+        });
+    });
+    WALL_HIT.store(false, SeqCst);
+    SEARCH_FLAG.store(true, SeqCst);
+    WALL_DEADLINE_MS.store(now_ms() + wall_cap_ms(), SeqCst);
+}
+
+fn disarm_watchdog() -> (bool, bool) {
+    WALL_DEADLINE_MS.store(0, SeqCst);
+    let wall = WALL_HIT.load(SeqCst);
+    // the flag as the search left it: lowered by the hook, by the watchdog, or still up
+    (SEARCH_FLAG.load(SeqCst), wall)
+}
+
 pub fn search(out: &mut Out, g: &Game, table: &mut TranspositionTable, limit: Option<u8>, stop_at: u64, budget: u64, watch: bool) -> Sr {
     let _ = out.take_stdout();
     hk::reset();
@@ -76,10 +121,15 @@ pub fn search(out: &mut Out, g: &Game, table: &mut TranspositionTable, limit: Op
         hk::DEPTH_LIMIT.store(limit.unwrap_or(0) as u64, SeqCst);
     }
     hk::MAX_STATE_LEN.store(0, SeqCst);
-    let flag = AtomicBool::new(true);
+    arm_watchdog();
+    let flag = &SEARCH_FLAG;
     let res = std::panic::catch_unwind(std::panic::AssertUnwindSafe(|| {
-        get_best_move_until_stop(g, table, &flag, limit)
+        get_best_move_until_stop(g, table, flag, limit)
     }));
+    let (flag_after, wall_hit) = disarm_watchdog();
+    if wall_hit {
+        out.add("searches_cut_by_the_wall_clock_cap", 1);
+    }
     let (result, panicked) = match res {
         Ok(r) => (r, None),
         Err(_) => (None, Some(PANIC_MSG.lock().map(|m| m.clone()).unwrap_or_default())),
@@ -104,8 +154,9 @@ pub fn search(out: &mut Out, g: &Game, table: &mut TranspositionTable, limit: Op
         iterations: hk::ITERATIONS.load(SeqCst),
         max_iter: hk::MAX_ITERATION.load(SeqCst),
         beyond_limit: hk::POLLS_BEYOND_LIMIT.load(SeqCst),
-        budget_hit: hk::BUDGET_HIT.load(SeqCst),
-        flag_after: flag.load(SeqCst),
+        budget_hit: hk::BUDGET_HIT.load(SeqCst) || wall_hit,
+        wall_hit,
+        flag_after,
         max_real_depth: hk::MAX_REAL_DEPTH.load(SeqCst),
         max_state_len: hk::MAX_STATE_LEN.load(SeqCst),
         panicked,
@@ -1189,7 +1240,7 @@ fn c10_position(out: &mut Out, root: &Root, shadow: &Pos, rng: &mut Rng, deep: b
             }
             if d.is_none() {
                 out.add("unlimited_mate_searches", 1);
-                if !r.ended_by_itself() && r.panicked.is_none() {
+                if !r.ended_by_itself() && r.panicked.is_none() && !r.wall_hit {
                     out.viol("C10", &format!("C10|m1-noend|{fen4}"),
                         &format!("{fen4} has mate in one but the unlimited search did not stop by itself within {} polls (deepest iteration {})", r.polls, r.max_iter), case);
                 }
@@ -1238,7 +1289,7 @@ fn c10_position(out: &mut Out, root: &Root, shadow: &Pos, rng: &mut Rng, deep: b
         }
         if d.is_none() {
             out.add("unlimited_mate_searches", 1);
-            if !r.ended_by_itself() && r.panicked.is_none() {
+            if !r.ended_by_itself() && r.panicked.is_none() && !r.wall_hit {
                 out.viol("C10", &format!("C10|m2-noend|{fen4}"),
                     &format!("{fen4} has a forced mate in two but the unlimited search did not stop by itself within {} polls (deepest iteration {})", r.polls, r.max_iter), case);
             }
